@@ -240,11 +240,11 @@ class DocutilsRenderer(RendererProtocol):
                 self._heading_slugs
             )
 
-        # ensure these settings are set for later footnote transforms
-        self.document.settings.myst_footnote_transition = (
-            self.md_config.footnote_transition
-        )
-        self.document.settings.myst_footnote_sort = self.md_config.footnote_sort
+        # keep the (possibly per-document) values for the later footnote transforms;
+        # they are stored on the document, not on the settings object, which may be
+        # shared between documents and holds the global options
+        self.document.myst_footnote_transition = self.md_config.footnote_transition
+        self.document.myst_footnote_sort = self.md_config.footnote_sort
 
         # log warnings for duplicate reference definitions
         # "duplicate_refs": [{"href": "ijk", "label": "B", "map": [4, 5], "title": ""}],
